@@ -208,6 +208,12 @@ def delaunay_rule(ctx, p, K):
             init = getattr(G.env.get(ret[0].name), "init", None)
             okr = okr and init is not None and isinstance(init[1], Poly) and init[1] == NEG1
             okr = okr and is_full_range(ins[0].loops[0], [S_("source_plane_data_grid.shape[0]")])
+    # the number of vertices per point: the entries that are not the -1 sentinel, i.e. >= 0 (vertex 0 is a vertex), counted along the row
+    if isinstance(ret, tuple) and len(ret) == 2 and isinstance(ret[0], Ref):
+        tn = ret[0].name
+        sizes_ok = repr(ret[1]) in (f"sum(bool((0 <= {tn})), kw_axis(1))", f"sum(bool(({tn} != -1)), kw_axis(1))", f"sum(bool((-1 < {tn})), kw_axis(1))", f"count_nonzero(bool((0 <= {tn})), kw_axis(1))")
+        ctx.ob(rule, g.key + ":sizes", sizes_ok, where=g, node=g.node, construct=repr(ret[1])[:160],
+               message="the number of vertices of each point must count the table entries that are not the -1 sentinel (>= 0) along the row: a strict test drops vertex 0")
     ctx.ob(rule, g.key, okr, where=g, node=g.node, construct=repr(ret)[:200],
            message="a point inside the hull takes the three vertices of its simplex; a point outside takes, in slot 0, the vertex nearest in squared distance over both components; unused slots are -1")
     # wiring in MapperDelaunay
